@@ -132,6 +132,33 @@ def run_verus(res, out_rs, lines, linemap, t0):
     return res
 
 
+def dep_closure(path, roots):
+    """Short names of the functions that the functions named in `roots` (short names) call,
+    transitively, in the assembled file -- a syntactic over-approximation (by method name) of
+    "every function between the property and the code that implements it"."""
+    lines = open(path).read().split('\n')
+    spans = fn_spans(lines)
+    bodies = {}
+    for ln, name in spans.items():
+        bodies.setdefault(name, []).append(lines[ln - 1])
+    text = {n: '\n'.join(b) for n, b in bodies.items()}
+    names = set(text)
+    calls = {}
+    for n, t in text.items():
+        t = re.sub(r'//[^\n]*', '', t)
+        found = set(m.group(1) for m in re.finditer(r'\b([A-Za-z_]\w*)\s*(?:::\s*<[^<>()]*(?:<[^<>()]*>)?[^<>()]*>\s*)?\(', t))
+        calls[n] = (found & names) - {n}
+    seen = set(r for r in roots if r in names)
+    todo = list(seen)
+    while todo:
+        n = todo.pop()
+        for c in calls.get(n, ()):
+            if c not in seen:
+                seen.add(c)
+                todo.append(c)
+    return seen
+
+
 def fn_spans(lines):
     """line number -> 'fn name' (innermost fn item), by a light scan of the
     assembled text (only used to attribute diagnostics)."""
